@@ -410,6 +410,7 @@ func c13(c *Ctx) {
 	c.c13Captcha(f)
 	c.c13BanStored()
 	c.c13BanReference()
+	c.c13OperFlagPair(f)
 }
 
 // freshChannel: at vertex v, ch was created by this function on the edge where the look-up in i.channels failed.
@@ -534,6 +535,38 @@ func (c *Ctx) c13Kick(gc *gateCtx, g *cfgx.Graph, site ast.Node, ch ast.Expr, ke
 		"another user is removed from a channel without the acting session's channel-operator status having been tested")
 	c.R.Check(okMem, "C13.E3", gc.fi.Name(), "removing "+astx.Str(key)+" requires being on the channel", pos, "dominated by the membership look-up",
 		"another user is removed from a channel by a session that is not on it")
+	// the removal changes the very relation the tests looked at: when it sits in a loop, the tests must be made in that
+	// loop's body (a list of targets may contain the acting session itself, after which it is neither member nor operator)
+	var loopBody *ast.BlockStmt
+	ast.Inspect(gc.fi.Node(), func(n ast.Node) bool {
+		var body *ast.BlockStmt
+		switch x := n.(type) {
+		case *ast.ForStmt:
+			body = x.Body
+		case *ast.RangeStmt:
+			body = x.Body
+		}
+		if body != nil && body.Pos() <= site.Pos() && site.End() <= body.End() {
+			loopBody = body
+		}
+		return true
+	})
+	if loopBody != nil {
+		var inner [][]lit
+		for _, u := range g.V {
+			if len(u.Succ) != 2 || u.Succ[0].Cond == nil || u.Succ[0].To == u.Succ[1].To {
+				continue
+			}
+			for _, e := range u.Succ {
+				if e.Tag == nil && loopBody.Pos() <= e.Cond.Pos() && e.Cond.End() <= loopBody.End() && g.EdgeDominates(e, v) {
+					inner = append(inner, c.clausesOf(gc.info, gc.fi.Node(), e.Cond, e.Val, 0)...)
+				}
+			}
+		}
+		okFresh := implied(inner, func(l lit) bool { return l.Pos && gc.isChanop(l.E, ch) })
+		c.R.Check(okFresh, "C13.E3", gc.fi.Name(), "the chanop test is repeated for every removal of a loop", pos, "a test inside the loop body dominates the removal",
+			"members are removed in a loop while the acting session's channel-operator status was tested once before the loop: once the acting session has removed itself (its own nick in the list) the remaining removals are carried out by somebody who is no longer on the channel")
+	}
 }
 
 func (c *Ctx) c13Invite(gc *gateCtx, g *cfgx.Graph, site ast.Node, ie *ast.IndexExpr) {
@@ -1450,5 +1483,88 @@ func (c *Ctx) c13BanReference() {
 	}
 	if !decided {
 		r.Assume("C13.E12", fi.Name(), "session reference parsing", c.P.Pos(fi.Node().Pos()), "shape not recognised (no strings.Index marker + ParseInt on the remainder): not decided")
+	}
+}
+
+// c13OperFlagPair (E7b): operator status is kept twice — Session.Operator (what the privilege tests read) and the user mode
+// 'o' (what the server reports). A statement that writes one of them is accompanied, in the same function and for the same
+// session, by a write of the other with the same value.
+func (c *Ctx) c13OperFlagPair(f *ircFacts) {
+	r := c.R
+	opF := c.P.Field("ircserver", "Session", "Operator")
+	modesF := c.P.Field("ircserver", "Session", "modes")
+	if opF == nil || modesF == nil {
+		return
+	}
+	n := 0
+	for _, fi := range c.P.FuncsIn("ircserver") {
+		if fi.Body() == nil || fi.Name() == "ircserver.(*IRCServer).Unmarshal" {
+			continue
+		}
+		info := fi.Info()
+		type w struct {
+			recv ast.Expr
+			val  ast.Expr
+			node ast.Node
+		}
+		var ops, modes []w
+		ast.Inspect(fi.Body(), func(nd ast.Node) bool {
+			as, ok := nd.(*ast.AssignStmt)
+			if !ok || len(as.Lhs) != len(as.Rhs) {
+				return true
+			}
+			for k, l := range as.Lhs {
+				if se, ok := ast.Unparen(l).(*ast.SelectorExpr); ok && astx.FieldSel(info, se) == opF {
+					ops = append(ops, w{se.X, as.Rhs[k], as})
+				}
+				if ie, ok := ast.Unparen(l).(*ast.IndexExpr); ok {
+					if se, ok := ast.Unparen(ie.X).(*ast.SelectorExpr); ok && astx.FieldSel(info, se) == modesF {
+						if z, ok := astx.ConstInt(info, ie.Index); ok && z == 'o' {
+							modes = append(modes, w{se.X, as.Rhs[k], as})
+						} else if !ok {
+							// modes[char] = … under a case 'o' of a switch on char
+							if id, isID := ast.Unparen(ie.Index).(*ast.Ident); isID {
+								g := c.Graph(fi)
+								for _, fct := range g.FactsAt(g.VertexOf(as)) {
+									if fct.Tag != nil && fct.Val {
+										if tid, ok := ast.Unparen(fct.Tag).(*ast.Ident); ok && astx.Obj(info, tid) == astx.Obj(info, id) {
+											if z, ok := astx.ConstInt(info, fct.Expr); ok && z == 'o' {
+												modes = append(modes, w{se.X, as.Rhs[k], as})
+											}
+										}
+									}
+								}
+							}
+						}
+					}
+				}
+			}
+			return true
+		})
+		for _, m := range modes {
+			n++
+			ok := false
+			for _, o := range ops {
+				if astx.Same(info, o.recv, m.recv) {
+					ok = true
+				}
+			}
+			r.Check(ok, "C13.E7", fi.Name(), "user mode 'o' and Session.Operator are written together", c.P.Pos(m.node.Pos()), "the same function writes <session>.Operator",
+				"the reported operator mode of a session is changed without its Operator flag (which KILL, GLINE and the other privilege tests read): the server shows the session without 'o' while it keeps every operator privilege")
+		}
+		for _, o := range ops {
+			n++
+			ok := false
+			for _, m := range modes {
+				if astx.Same(info, o.recv, m.recv) {
+					ok = true
+				}
+			}
+			r.Check(ok, "C13.E7", fi.Name(), "Session.Operator and user mode 'o' are written together", c.P.Pos(o.node.Pos()), "the same function writes <session>.modes['o']",
+				"a session's Operator flag is changed without the user mode 'o' that the server reports")
+		}
+	}
+	if n < 2 {
+		r.Break("C13.E7: only %d writes of operator status found", n)
 	}
 }
